@@ -1,4 +1,4 @@
-package c10
+package flow
 
 import (
 	"go/ast"
@@ -8,7 +8,6 @@ import (
 	"rscheck/cfgq"
 	"rscheck/core"
 	"rscheck/lin"
-	"rscheck/rules/c10/flow"
 )
 
 // Byte facts: what a branch condition says about the content of one buffer,
@@ -17,7 +16,7 @@ import (
 // `bytes.HasSuffix(b, K)` / `strings.HasSuffix(string(b), "K")` (index counted
 // from the buffer's length), each under either polarity, De Morgan and
 // guard-clause forms (cfgq.Facts), through boolean locals and predicate
-// helpers (flow.EdgeFacts). Indexes are linear forms (package lin), so `n`,
+// helpers (EdgeFacts). Indexes are linear forms (package lin), so `n`,
 // `len(b)-2` and a local holding either are the same index.
 
 type byteAt struct {
@@ -25,16 +24,19 @@ type byteAt struct {
 	val int64
 }
 
-type buffer struct {
-	r      *rs
-	obj    types.Object
-	length lin.Form // the buffer's length as a linear form (make size, or the atom len(b))
+// Buffer is one tracked byte buffer (a []byte or string variable).
+type Buffer struct {
+	Info   *types.Info
+	Body   ast.Node // body of the analysed function (for resolving locals)
+	Obj    types.Object
+	Length lin.Form // the buffer's length as a linear form (make size, or the atom len(b))
 }
 
-func (r *rs) bufferOf(body ast.Node, obj types.Object, size ast.Expr) *buffer {
-	b := &buffer{r: r, obj: obj}
+// NewBuffer tracks obj; size is the length expression of its allocation when known (nil: the atom len(obj)).
+func NewBuffer(info *types.Info, body ast.Node, obj types.Object, size ast.Expr) *Buffer {
+	b := &Buffer{Info: info, Body: body, Obj: obj}
 	if size != nil {
-		b.length = lin.Of(r.info, size)
+		b.Length = lin.Of(info, size)
 		return b
 	}
 	// the atom len(b): taken from the source so that it has the key lin gives to the source's own len(b)
@@ -47,22 +49,22 @@ func (r *rs) bufferOf(body ast.Node, obj types.Object, size ast.Expr) *buffer {
 	})
 	if lenCall == nil {
 		id := ast.NewIdent(obj.Name())
-		r.info.Uses[id] = obj
+		info.Uses[id] = obj
 		lenCall = &ast.CallExpr{Fun: ast.NewIdent("len"), Args: []ast.Expr{id}}
 	}
-	b.length = lin.Form{Coef: map[string]int64{lin.Key(r.info, lenCall): 1}}
+	b.Length = lin.Form{Coef: map[string]int64{lin.Key(info, lenCall): 1}}
 	return b
 }
 
 // lenForm is the form of len(<this buffer>) as it appears in the source.
-func (b *buffer) isLenCall(e ast.Expr) bool {
+func (b *Buffer) isLenCall(e ast.Expr) bool {
 	call, ok := ast.Unparen(e).(*ast.CallExpr)
-	return ok && flow.IsBuiltin(b.r.info, call, "len") && len(call.Args) == 1 && flow.IsObj(b.r.info, b.obj)(call.Args[0])
+	return ok && IsBuiltin(b.Info, call, "len") && len(call.Args) == 1 && IsObj(b.Info, b.Obj)(call.Args[0])
 }
 
 // constBytes: e denotes a constant byte string.
-func (b *buffer) constBytes(e ast.Expr) ([]byte, bool) {
-	info := b.r.info
+func (b *Buffer) constBytes(e ast.Expr) ([]byte, bool) {
+	info := b.Info
 	e = ast.Unparen(e)
 	if s, ok := core.StringConst(info, e); ok {
 		return []byte(s), true
@@ -81,11 +83,11 @@ func (b *buffer) constBytes(e ast.Expr) ([]byte, bool) {
 			}
 			out = append(out, byte(v))
 		}
-		if _, isSlice := info.TypeOf(x).Underlying().(*types.Slice); isSlice && len(out) > 0 {
+		if _, isSlice := info.TypeOf(x).Underlying().(*types.Slice); isSlice {
 			return out, true
 		}
 	case *ast.Ident:
-		if d := flow.Resolve(info, b.r.cur, x); d != ast.Expr(x) {
+		if d := Resolve(info, b.Body, x); d != ast.Expr(x) {
 			return b.constBytes(d)
 		}
 	}
@@ -94,18 +96,18 @@ func (b *buffer) constBytes(e ast.Expr) ([]byte, bool) {
 
 // window: e is the buffer or a slice of it (possibly converted to string);
 // lo is the index of its first byte, whole tells that it extends to the end.
-func (b *buffer) window(e ast.Expr) (lo lin.Form, whole, ok bool) {
-	info := b.r.info
+func (b *Buffer) window(e ast.Expr) (lo lin.Form, whole, ok bool) {
+	info := b.Info
 	e = ast.Unparen(e)
 	if call, isCall := e.(*ast.CallExpr); isCall && len(call.Args) == 1 {
 		if tv, has := info.Types[call.Fun]; has && tv.IsType() {
 			return b.window(call.Args[0])
 		}
 	}
-	if flow.IsObj(info, b.obj)(e) {
+	if IsObj(info, b.Obj)(e) {
 		return lin.Form{Coef: map[string]int64{}}, true, true
 	}
-	if se, isSlice := e.(*ast.SliceExpr); isSlice && flow.IsObj(info, b.obj)(se.X) && se.Max == nil {
+	if se, isSlice := e.(*ast.SliceExpr); isSlice && IsObj(info, b.Obj)(se.X) && se.Max == nil {
 		lo = lin.Form{Coef: map[string]int64{}}
 		if se.Low != nil {
 			lo = lin.Of(info, se.Low)
@@ -115,7 +117,7 @@ func (b *buffer) window(e ast.Expr) (lo lin.Form, whole, ok bool) {
 	return lin.Form{}, false, false
 }
 
-func shift(f lin.Form, k int64) lin.Form {
+func Shift(f lin.Form, k int64) lin.Form {
 	c := map[string]int64{}
 	for a, v := range f.Coef {
 		c[a] = v
@@ -126,12 +128,12 @@ func shift(f lin.Form, k int64) lin.Form {
 // facts interprets one branch fact. bytes are established byte values, minLen
 // a lower bound on the buffer's length implied by the fact (-1: none);
 // understood is false when the fact is not one of the interpreted spellings.
-func (b *buffer) facts(f cfgq.Fact) (bytes []byteAt, minLen int64, understood bool) {
-	info := b.r.info
+func (b *Buffer) facts(f cfgq.Fact) (bytes []byteAt, minLen int64, understood bool) {
+	info := b.Info
 	minLen = -1
 	at := func(lo lin.Form, k []byte) {
 		for i, c := range k {
-			bytes = append(bytes, byteAt{shift(lo, int64(i)), int64(c)})
+			bytes = append(bytes, byteAt{Shift(lo, int64(i)), int64(c)})
 		}
 	}
 	equalPair := func(x, y ast.Expr, equal bool) bool {
@@ -147,10 +149,10 @@ func (b *buffer) facts(f cfgq.Fact) (bytes []byteAt, minLen int64, understood bo
 		}
 		return false
 	}
-	if x, y, op, ok := flow.Rel(f); ok && (op == token.EQL || op == token.NEQ) {
+	if x, y, op, ok := Rel(f); ok && (op == token.EQL || op == token.NEQ) {
 		// b[I] == C
 		for _, p := range [][2]ast.Expr{{x, y}, {y, x}} {
-			if ix, isIdx := ast.Unparen(p[0]).(*ast.IndexExpr); isIdx && flow.IsObj(info, b.obj)(ix.X) {
+			if ix, isIdx := ast.Unparen(p[0]).(*ast.IndexExpr); isIdx && IsObj(info, b.Obj)(ix.X) {
 				if c, isC := core.IntConst(info, p[1]); isC {
 					if op == token.EQL {
 						bytes = append(bytes, byteAt{lin.Of(info, ix.Index), c})
@@ -172,6 +174,15 @@ func (b *buffer) facts(f cfgq.Fact) (bytes []byteAt, minLen int64, understood bo
 				if equalPair(call.Args[0], call.Args[1], f.Val) {
 					return bytes, minLen, true
 				}
+			case "HasPrefix":
+				lo, _, okW := b.window(call.Args[0])
+				k, okK := b.constBytes(call.Args[1])
+				if okW && okK {
+					if f.Val {
+						at(lo, k)
+					}
+					return bytes, minLen, true
+				}
 			case "HasSuffix":
 				lo, whole, okW := b.window(call.Args[0])
 				k, okK := b.constBytes(call.Args[1])
@@ -179,7 +190,7 @@ func (b *buffer) facts(f cfgq.Fact) (bytes []byteAt, minLen int64, understood bo
 					if f.Val {
 						// the suffix starts at length - len(K); a slice b[lo:] ends where b ends
 						_ = lo
-						at(shift(b.length, -int64(len(k))), k)
+						at(Shift(b.Length, -int64(len(k))), k)
 						minLen = int64(len(k))
 					}
 					return bytes, minLen, true
@@ -190,8 +201,8 @@ func (b *buffer) facts(f cfgq.Fact) (bytes []byteAt, minLen int64, understood bo
 	return nil, -1, false
 }
 
-// establishes: the fact says that the byte at idx is val.
-func (b *buffer) establishes(idx lin.Form, val int64) func(cfgq.Fact) bool {
+// Establishes: the fact says that the byte at idx is val.
+func (b *Buffer) Establishes(idx lin.Form, val int64) func(cfgq.Fact) bool {
 	return func(f cfgq.Fact) bool {
 		bs, _, _ := b.facts(f)
 		for _, x := range bs {
@@ -203,21 +214,49 @@ func (b *buffer) establishes(idx lin.Form, val int64) func(cfgq.Fact) bool {
 	}
 }
 
-// atLeast: the fact implies len(buffer) >= k.
-func (b *buffer) atLeast(k int64) func(cfgq.Fact) bool {
+// AtLeast: the fact implies len(buffer) >= k.
+func (b *Buffer) AtLeast(k int64) func(cfgq.Fact) bool {
 	return func(f cfgq.Fact) bool {
 		if _, m, _ := b.facts(f); m >= k {
 			return true
 		}
-		lo, isLower, ok := flow.Bound(b.r.info, f, b.length)
+		lo, isLower, ok := Bound(b.Info, f, b.Length)
 		return ok && isLower && lo >= k
 	}
 }
 
-// understood: the fact is an interpreted statement about the buffer's bytes or length.
-func (b *buffer) understood(f cfgq.Fact) bool {
+// Understood: the fact is an interpreted statement about the buffer's bytes or length.
+func (b *Buffer) Understood(f cfgq.Fact) bool {
 	if _, _, ok := b.facts(f); ok {
 		return true
 	}
-	return flow.LinAbout(b.r.info, f, b.length)
+	return LinAbout(b.Info, f, b.Length)
+}
+
+// LenIs: the fact says len(buffer) == k (`len(b) == k`, or the whole buffer equals a constant of that length).
+func (b *Buffer) LenIs(k int64) func(cfgq.Fact) bool {
+	return func(f cfgq.Fact) bool {
+		if LinIs(b.Info, f, b.Length, token.EQL, k) {
+			return true
+		}
+		if hi, isLower, ok := Bound(b.Info, f, b.Length); ok && !isLower && k == 0 && hi <= 0 {
+			return true // a length is never negative: len <= 0 says len == 0
+		}
+		var x, y ast.Expr
+		if rx, ry, op, ok := Rel(f); ok && op == token.EQL {
+			x, y = rx, ry
+		} else if call, ok := ast.Unparen(f.Expr).(*ast.CallExpr); ok && f.Val && len(call.Args) == 2 && core.IsFunc(core.CalleeFunc(b.Info, call), "bytes", "", "Equal") {
+			x, y = call.Args[0], call.Args[1]
+		} else {
+			return false
+		}
+		for _, p := range [][2]ast.Expr{{x, y}, {y, x}} {
+			lo, whole, okW := b.window(p[0])
+			kb, okK := b.constBytes(p[1])
+			if okW && okK && whole && len(lo.Coef) == 0 && lo.Const == 0 && int64(len(kb)) == k {
+				return true
+			}
+		}
+		return false
+	}
 }
